@@ -283,6 +283,22 @@ where
     }
 }
 
+/// Read-only access to private items for the verification harness.
+#[cfg(coupe_verif)]
+pub mod verif {
+    /// `weighted_median` on `i64` weights: `(position, left_weight)`.
+    pub fn weighted_median_i64(weights: &[i64], total_weight: i64) -> (usize, i64) {
+        let m = super::weighted_median(weights, total_weight);
+        (m.position, m.left_weight)
+    }
+
+    /// `weighted_median` on `f64` weights: `(position, left_weight)`.
+    pub fn weighted_median_f64(weights: &[f64], total_weight: f64) -> (usize, f64) {
+        let m = super::weighted_median(weights, total_weight);
+        (m.position, m.left_weight)
+    }
+}
+
 #[cfg(test)]
 mod tests {
     use super::*;
